@@ -243,13 +243,31 @@ func (f *Frame) instr(in ssa.Instruction) {
 	case *ssa.Range, *ssa.Next:
 		f.rangeNext(in)
 	case *ssa.MakeChan:
+		// a channel is an object with a queue length (slot 0) and a capacity (slot 1) in the
+		// length memory; elements are not modelled
 		obj := f.allocObj()
+		sz := f.toInt64(f.val(x.Size)[0], x.Size.Type())
+		f.oblig("nopanic:makechan", "makechan", tb.Sle(tb.BV(64, 0), sz), x.Pos(), "makechan: size out of range")
+		f.cur.mem = f.cur.mem.clone()
+		f.cur.mem.m[mapLenKey] = f.u.mc.Store(f.cur.mem.m[mapLenKey], obj, tb.BV(64, 0), tb.BV(64, 0))
+		f.cur.mem.m[mapLenKey] = f.u.mc.Store(f.cur.mem.m[mapLenKey], obj, tb.BV(64, 1), sz)
 		f.set(x, []*Term{obj})
 	case *ssa.Go:
 		f.u.note("goroutine spawn not modelled in " + f.fn.String())
 		f.havocAll("go statement")
 	case *ssa.Send:
-		f.u.note("channel send not modelled in " + f.fn.String())
+		// Sequential semantics (no receiver runs concurrently with the unit): a send on a full or
+		// nil channel blocks forever. Under flag nonblocking this is an obligation; in any case the
+		// queue grows by one.
+		ch := f.val(x.Chan)[0]
+		ln, cp := f.chanLen(ch), f.chanCap(ch)
+		if f.u.nonBlocking && !f.spec {
+			f.u.addObl("blocks:send", f.anchorFor("send"), f.cur.reach, tb.And(tb.Not(tb.Eq(ch, tb.BV(32, 0))), tb.Slt(ln, cp)), f.pos(x.Pos()), "send on a channel that may be full (no receiver runs yet): blocks forever")
+		} else {
+			f.u.note("channel send: blocking is not checked in " + f.fn.String())
+		}
+		f.cur.mem = f.cur.mem.clone()
+		f.cur.mem.m[mapLenKey] = f.u.mc.Store(f.cur.mem.m[mapLenKey], ch, tb.BV(64, 0), tb.Add(ln, tb.BV(64, 1)))
 	case *ssa.Select:
 		f.u.note("select not modelled in " + f.fn.String())
 		f.set(x, f.u.freshValue("select", x.Type()))
@@ -307,6 +325,21 @@ func (f *Frame) unop(x *ssa.UnOp) {
 	default:
 		panic(unsupported("unop " + x.Op.String()))
 	}
+}
+
+// chanLen / chanCap: queue length and capacity of a channel object (0 <= len <= cap always holds)
+func (f *Frame) chanLen(ch *Term) *Term {
+	tb := f.tb()
+	ln := f.u.mc.Sel(f.cur.mem.m[mapLenKey], ch, tb.BV(64, 0))
+	cp := f.u.mc.Sel(f.cur.mem.m[mapLenKey], ch, tb.BV(64, 1))
+	f.u.addFact(tb.Implies(f.cur.reach, tb.And(tb.Sle(tb.BV(64, 0), ln), tb.Sle(ln, cp), tb.Sle(cp, tb.BV(64, 1<<40)))))
+	return ln
+}
+
+func (f *Frame) chanCap(ch *Term) *Term {
+	tb := f.tb()
+	f.chanLen(ch)
+	return f.u.mc.Sel(f.cur.mem.m[mapLenKey], ch, tb.BV(64, 1))
 }
 
 // loadFacts adds the validity facts of a value that was read from memory.
